@@ -66,6 +66,9 @@ func (C02) Gen(rt *rapid.T, tier string) any {
 	if os.Getenv("VERIF_X_ONLY") != "" {
 		kind = "plain"
 	}
+	if os.Getenv("VERIF_X_ONLY") == "osrelease" || (mode == "sim" && chance(rt, 5, "osrel")) {
+		kind = "osrelease"
+	}
 	if mode == "real" && rapid.Bool().Draw(rt, "containerd") {
 		kind = "containerd"
 	}
@@ -130,8 +133,40 @@ func (C02) Gen(rt *rapid.T, tier string) any {
 				// corrupt one inner file of the structurally valid container
 				z := p.files[victim].Src.Zip
 				zi := pick(rt, len(z), "inner")
-				z[zi].Src.Ops = genOps(rt, 1500, "iop")
+				inner, _ := z[zi].Src.Bytes(false)
+				z[zi].Src.Ops = genOps(rt, inner, "iop")
 				avoid[t.Fix[fi].Ext] = true
+			}
+		}
+	case "osrelease":
+		// the victim is a COMPANION file: os-release, which every OS extractor reads through
+		// input.FS next to its own (healthy) database
+		if mode == "sim" {
+			var osx []string
+			for _, e := range cov {
+				if strings.HasPrefix(e, "os/") && e != "os/homebrew" && e != "os/macapps" {
+					osx = append(osx, e)
+				}
+			}
+			for k, n := 0, 2+pick(rt, 3, "osr.n"); k < n && len(osx) > 0; k++ {
+				ci := pick(rt, len(osx), fmt.Sprintf("osr.ext%d", k))
+				e := osx[ci]
+				osx = append(osx[:ci:ci], osx[ci+1:]...)
+				if fi := pickFixture(rt, t, e, 600_000, true, fmt.Sprintf("osr%d", k)); fi >= 0 {
+					p.place(fi, homeTmpl(rt, t, fi, fmt.Sprintf("osr%d.tm", k)), drawDir(rt, fmt.Sprintf("osr%d.dir", k), true))
+					avoid[e] = true
+				}
+			}
+			src := Src{Text: oneOf(rt, osReleaseVariants, "osr.text")}
+			if chance(rt, 50, "osr.targeted") {
+				// a value cut right after the delimiter, optionally keeping its first character (a lone quote)
+				src.Ops = append(src.Ops, Op{Kind: "emptyval", Off: pick(rt, 12, "osr.line"), Val: pick(rt, 2, "osr.keep")})
+			}
+			if len(src.Ops) == 0 || chance(rt, 50, "osr.more") {
+				src.Ops = append(src.Ops, genOps(rt, []byte(src.Text), "osr.op")...)
+			}
+			if p.add(FileSpec{Path: oneOf(rt, []string{"etc/os-release", "etc/os-release", "usr/lib/os-release"}, "osr.path"), Src: src}) {
+				victim = len(p.files) - 1
 			}
 		}
 	case "canary":
@@ -222,6 +257,9 @@ func (C02) Gen(rt *rapid.T, tier string) any {
 				victim = sib[pick(rt, len(sib), "sib")]
 			}
 		}
+		if kind == "osrelease" {
+			kind = "plain"
+		}
 		if kind != "sibling" && kind != "nostat" && kind != "symlink" {
 			kind = "plain"
 		}
@@ -240,7 +278,7 @@ func (C02) Gen(rt *rapid.T, tier string) any {
 	sc.Kind = kind
 	nh := 3 + pick(rt, 6, "nhealthy")
 	addHealthy(rt, p, enabled, avoid, nh, 600_000)
-	if rapid.Bool().Draw(rt, "osrelease") {
+	if rapid.Bool().Draw(rt, "osrelease") && kind != "osrelease" {
 		p.add(FileSpec{Path: "etc/os-release", Src: Src{Text: osRelease}})
 	}
 	if kind == "canary" || chance(rt, 30, "canary.healthy") {
@@ -265,10 +303,10 @@ func (C02) Gen(rt *rapid.T, tier string) any {
 	}
 	if !v.Src.HasOps() && (kind != "include" || rapid.Bool().Draw(rt, "incops")) && kind != "foreign" && (kind != "zipbomb" || rapid.Bool().Draw(rt, "zbops")) &&
 		kind != "symlink" && (kind != "nostat" || rapid.Bool().Draw(rt, "nsops")) {
-		v.Src.Ops = genOps(rt, len(vb), "op")
+		v.Src.Ops = genOps(rt, vb, "op")
 	}
 	if kind == "foreign" && rapid.Bool().Draw(rt, "fops") {
-		v.Src.Ops = genOps(rt, len(vb), "op")
+		v.Src.Ops = genOps(rt, vb, "op")
 	}
 	sc.Order.Rev = rapid.Bool().Draw(rt, "rev")
 	if mode == "sim" {
@@ -823,7 +861,8 @@ func memOver(er *ExtractRec, treeBytes int) (kind string, limitMB, gotMB int64) 
 	if treeBytes <= 1<<20 && er.AllocMB > 1024 {
 		return "process-growth", 1024, er.AllocMB
 	}
-	if lim := int64(64 + 8*(archiveMaxOpened>>20) + 64*(treeBytes>>20)); er.Ext == "java/archive" && er.TotalMB > lim {
+	// (the simulated disk itself allocates per seam event - about 1 KiB is allowed for each)
+	if lim := int64(64+8*(archiveMaxOpened>>20)+64*(treeBytes>>20)) + int64(er.Reads+er.Opens)>>10; er.Ext == "java/archive" && er.TotalMB > lim {
 		return "allocated", lim, er.TotalMB
 	}
 	return "", 0, 0
